@@ -59,6 +59,7 @@ type Prog struct {
 	onceBody map[*ssa.Function]*ssa.Function
 	byName   map[string]*ssa.Function
 	single   map[*ssa.Function]bool
+	leaf     map[*ssa.Function]bool
 	e3bSerialised int
 	e4    *e4Result
 	e5    *e5Result
